@@ -437,45 +437,79 @@ MALFORMED = ["garbage", NS_TOKEN + "0" * 63, NS_TOKEN + "A" * 64, NS_TOKEN + "0"
 
 
 def gen_history(rng, n_ops, max_age, max_tokens=5):
-    """Seeded, mostly valid histories.  The generator keeps a rough shadow (which hrefs probably exist) only to
-    bias towards operations that are accepted; the server decides."""
+    """Seeded, mostly valid histories.  The generator keeps a rough shadow (which hrefs probably exist, with which
+    UID) only to bias towards operations the server accepts; the server decides.  Token references are resolved
+    at run time: ["own", j] = j-th distinct token this collection handed out (mod count), ["any", j] = j-th token
+    overall, ["last"] = the token this collection returned last, ["unknown"] = well-formed, never issued."""
     ops = [["mkcoll", 0]]
+    exists = {0: True, 1: False}
     if rng.random() < 0.7:
         ops.append(["mkcoll", 1])
+        exists[1] = True
     present = {0: {}, 1: {}}      # c -> h -> (uid, k)
-    exists = {0: True, 1: len(ops) > 1}
-    ntok = 0
-    outstanding = []
-    boundary = [max_age, max_age - 1, max_age + 1, 1, max(1, max_age // 2), 0]
+    held = {0: [], 1: []}         # per collection: the (at most max_tokens) outstanding token slots clients keep
+    issued = {0: 0, 1: 0}
+    boundary = [max_age, max_age - 1, max_age + 1, 1, max(1, max_age // 2), 0, 2 * max_age]
+
+    def pick_coll():
+        live = [c for c in (0, 1) if exists[c]]
+        if live and rng.random() < 0.92:
+            return rng.choice(live) if rng.random() < 0.4 else live[0]
+        return rng.randrange(NCOLL)
+
+    def uids_in(c):
+        return {u for u, _ in present[c].values()}
+
     for _ in range(n_ops):
         r = rng.random()
-        c = rng.randrange(NCOLL) if rng.random() < 0.35 else 0
-        if r < 0.20:
+        c = pick_coll()
+        if r < 0.22:
             h = rng.randrange(len(HREFS))
             cur = present[c].get(h)
-            if cur and rng.random() < 0.8:
-                uid = cur[0]
-                k = rng.choice([0, 1, 2]) if rng.random() < 0.8 else cur[1]      # modify, undo, or same content
+            if cur:
+                uid = cur[0] if rng.random() < 0.95 else rng.choice(UIDS)
+                k = rng.choice([0, 1, 2]) if rng.random() < 0.85 else cur[1]      # modify, undo, or same content
             else:
-                uid = UIDS[h] if rng.random() < 0.75 else rng.choice(UIDS)
+                free = [u for u in UIDS if u not in uids_in(c)]
+                uid = UIDS[h] if UIDS[h] in free and rng.random() < 0.7 else (rng.choice(free) if free and rng.random() < 0.9 else rng.choice(UIDS))
                 k = rng.choice([0, 1])
             ops.append(["put", c, h, uid, k])
-            if exists[c]:
+            if exists[c] and (cur is None or cur[0] == uid) and (cur is not None or uid not in uids_in(c)):
                 present[c][h] = (uid, k)
-        elif r < 0.32:
-            hs = list(present[c]) or [0]
-            h = rng.choice(hs) if rng.random() < 0.9 else rng.randrange(len(HREFS))
+        elif r < 0.33:
+            if present[c] and rng.random() < 0.93:
+                h = rng.choice(list(present[c]))
+            else:
+                h = rng.randrange(len(HREFS))
             ops.append(["del", c, h])
             present[c].pop(h, None)
-        elif r < 0.42:
-            hs = list(present[c]) or [0]
-            h = rng.choice(hs)
-            c2 = c if rng.random() < 0.5 else 1 - c
-            h2 = rng.randrange(len(HREFS)) if rng.random() < 0.8 else h
+        elif r < 0.44:
+            if not present[c]:
+                ops.append(["put", c, 0, "a", rng.choice([0, 1])])
+                if exists[c]:
+                    present[c][0] = ("a", ops[-1][4])
+                continue
+            h = rng.choice(list(present[c]))
+            uid = present[c][h][0]
+            q = rng.random()
+            c2 = 1 - c if (q < 0.5 and exists[1 - c]) else c
+            # targets the application accepts: a free href, or an item with the same UID (other collection)
+            same_uid = [h2 for h2, (u, _) in present[c2].items() if u == uid and (c2, h2) != (c, h)]
+            free = [h2 for h2 in range(len(HREFS)) if h2 not in present[c2]]
+            if same_uid and rng.random() < 0.6:
+                h2 = rng.choice(same_uid)
+            elif free and rng.random() < 0.8 and (c2 == c or uid not in uids_in(c2)):
+                h2 = rng.choice(free)
+            elif rng.random() < 0.3:
+                h2 = h                         # onto itself / same name in the other collection
+            else:
+                h2 = rng.randrange(len(HREFS))
             ops.append(["move", c, h, c2, h2])
-            if h in present[c] and exists[c2]:
-                present[c2][h2] = present[c].pop(h) if (c, h) != (c2, h2) else present[c][h]
-        elif r < 0.47:
+            ok = exists[c2] and ((h2 not in present[c2] and (c2 == c or uid not in uids_in(c2))) or
+                                 (h2 in present[c2] and present[c2][h2][0] == uid))
+            if ok and (c, h) != (c2, h2):
+                present[c2][h2] = present[c].pop(h)
+        elif r < 0.49:
             n = rng.randrange(0, 4)
             uids = rng.sample(UIDS, n)
             items = [[u, rng.choice([0, 1])] for u in uids]
@@ -487,15 +521,16 @@ def gen_history(rng, n_ops, max_age, max_tokens=5):
             ops.append(["replace", c, items])
             exists[c] = True
             present[c] = {UIDS.index(u): (u, k) for u, k in items}
-        elif r < 0.50:
+        elif r < 0.52:
             if exists[c] and rng.random() < 0.7:
                 ops.append(["delcoll", c])
                 exists[c] = False
                 present[c] = {}
             else:
+                c = c if not exists[c] else 1 - c
                 ops.append(["mkcoll", c])
                 exists[c] = True
-        elif r < 0.54:
+        elif r < 0.555:
             ops.append(["dropcache", c, rng.random() < 0.5])
         elif r < 0.66:
             if rng.random() < 0.6:
@@ -503,32 +538,67 @@ def gen_history(rng, n_ops, max_age, max_tokens=5):
             else:
                 dt = rng.randrange(0, 2 * max_age + 2)
             ops.append(["tick", dt])
-        elif r < 0.94:
+        elif r < 0.95:
             q = rng.random()
-            if ntok == 0 or q < 0.15:
+            if issued[c] == 0 or q < 0.12:
                 tok = None
-            elif q < 0.55 and outstanding:
-                tok = rng.choice(outstanding)
+            elif q < 0.62 and held[c]:
+                tok = ["own", rng.choice(held[c])]              # one of the outstanding tokens of this collection
+            elif q < 0.74:
+                tok = ["last"]
             elif q < 0.80:
-                tok = ntok - 1 if rng.random() < 0.7 else rng.randrange(ntok)
+                tok = ["any", rng.randrange(50)]
             elif q < 0.86:
-                tok = ["ws", rng.randrange(ntok)]
+                tok = ["ws", ["own", rng.randrange(50)]]
             elif q < 0.94:
                 tok = ["mal", rng.choice(MALFORMED)]
             else:
-                tok = ntok + 5          # well-formed token never handed out
+                tok = ["unknown"]
             ops.append(["sync", c, tok])
-            ntok += 1                    # upper bound on the tokens seen; indices are clipped at run time
-            if len(outstanding) < max_tokens and rng.random() < 0.5:
-                outstanding.append(max(0, ntok - 1))
-            if rng.random() < 0.35:
-                ops.append(["sync", c, ["last"]])      # resolved at run time: the token just returned
+            if exists[c]:
+                issued[c] += 1
+                # a client keeps the token it just got (up to max_tokens outstanding per collection)
+                if rng.random() < 0.6:
+                    slot = issued[c] - 1
+                    if len(held[c]) < max_tokens:
+                        held[c].append(slot)
+                    elif rng.random() < 0.3:
+                        held[c][rng.randrange(max_tokens)] = slot
+            if rng.random() < 0.3:
+                ops.append(["sync", c, ["last"]])
         else:
             ops.append(["ptok", c])
-            ntok += 1
+            if exists[c]:
+                issued[c] += 1
             if rng.random() < 0.5:
                 ops.append(["sync", c, ["last"]])
     return ops
+
+
+def resolve_token(w, tok, c, last, owned):
+    """Run-time resolution of token references to None | int (global token id) | ["ws", int] | ["mal", str]."""
+    if tok is None:
+        return None
+    if isinstance(tok, int):
+        if tok < len(w.tokens) or tok >= len(w.tokens) + 3:
+            return tok
+        return len(w.tokens) - 1 if w.tokens else None
+    k = tok[0]
+    if k == "mal":
+        return tok
+    if k == "last":
+        return last.get(c)
+    if k == "own":
+        lst = owned.get(c) or []
+        return lst[tok[1] % len(lst)] if lst else None
+    if k == "any":
+        return tok[1] % len(w.tokens) if w.tokens else None
+    if k == "unknown":
+        return len(w.tokens) + 5
+    if k == "ws":
+        inner = resolve_token(w, tok[1], c, last, owned)
+        return ["ws", inner] if isinstance(inner, int) and inner < len(w.tokens) else None
+    raise ValueError(tok)
 
 
 def run_history(cfg, ops, monitor=True, dumps=True):
@@ -538,22 +608,15 @@ def run_history(cfg, ops, monitor=True, dumps=True):
     with World(**cfg) as w:
         mon = Monitor(w) if monitor else None
         last = {}
+        owned = {}
         for i, op in enumerate(ops):
             op = list(op)
             if op[0] == "sync":
-                tok = op[2]
-                if isinstance(tok, list) and tok[0] == "last":
-                    tok = last.get(op[1])
-                elif isinstance(tok, int) and w.tokens:
-                    tok = tok if tok < len(w.tokens) or tok >= len(w.tokens) + 3 else len(w.tokens) - 1
-                elif isinstance(tok, int):
-                    tok = None if tok < 3 else tok
-                elif isinstance(tok, list) and tok[0] == "ws":
-                    tok = ["ws", min(tok[1], len(w.tokens) - 1)] if w.tokens else None
-                op[2] = tok
+                op[2] = resolve_token(w, op[2], op[1], last, owned)
             accepted, result = w.apply(op)
             if op[0] in ("sync", "ptok") and result and result[0] in ("delta", "token"):
                 last[op[1]] = result[1]
+                owned.setdefault(op[1], []).append(result[1])      # one entry per hand-out (a client per hand-out)
             if mon:
                 n0 = len(mon.errors)
                 mon.after(op, accepted, result)
